@@ -32,7 +32,7 @@ def _has_filtered_interval(p) -> bool:
 class ProdImpl:
     """one instance per case: fixed zone and draw seed; producers are addressed by a small integer"""
 
-    def __init__(self, tz: str, seed: int, budget_s: float = 40.0) -> None:
+    def __init__(self, tz: str, seed: int, budget_s: float = 10.0) -> None:
         self.tz, self.seed, self.budget_s = tz, seed, budget_s
         self.trig: dict[int, object] = {}
         self.prod: dict[int, object] = {}
